@@ -351,8 +351,10 @@ func (re *Regexp) findAllRunesIndex(runner *Runner, input []rune, startAt, n int
 	var out [][]int
 	var flat []int
 	if n > 0 {
-		out = make([][]int, 0, n)
-		flat = make([]int, 0, n*2)
+		// n is only an upper bound (callers pass very large values for "all")
+		c := min(n, 16)
+		out = make([][]int, 0, c)
+		flat = make([]int, 0, c*2)
 	}
 
 	prevEnd := -1
@@ -370,7 +372,8 @@ func (re *Regexp) findAllRunesIndex(runner *Runner, input []rune, startAt, n int
 			start, end := makeIndex(m.RuneIndex, m.RuneLength)
 			flat = append(flat, start, end)
 			out = append(out, flat[len(flat)-2:len(flat):len(flat)])
-			prevEnd = m.RuneIndex + m.RuneLength
+			// the edge the scan advances from: the end of the match, or its start when right-to-left
+			prevEnd = m.textpos
 			if n > 0 {
 				n--
 			}
@@ -378,6 +381,9 @@ func (re *Regexp) findAllRunesIndex(runner *Runner, input []rune, startAt, n int
 
 		startAt = m.textpos
 		previousMatchLength = m.RuneLength
+	}
+	if len(out) == 0 {
+		return nil, nil
 	}
 	return out, nil
 }
